@@ -247,7 +247,8 @@ func runPlan(p *plan, workDir string) (out outcome) {
 	x.dNx = w.AddDest(0, nameNx)
 
 	spec := &udpsvc.Spec{ServerProto: p.ServerProto, BatchMode: p.BatchMode, NATTimeout: fmt.Sprintf("%dms", p.NATTimeoutMs),
-		RelayBatchSize: p.RelayBatch, SendChannelCapacity: p.SendChanCap, ClientProto: p.ClientProto, RejectDomains: []string{nameRej}}
+		RelayBatchSize: p.RelayBatch, SendChannelCapacity: p.SendChanCap, ClientProto: p.ClientProto, RejectDomains: []string{nameRej},
+		ClientMTU: 1280} // smaller than the server's 1500: a 1324-byte payload passes the server and cannot be packed for the outbound path
 	x.spec = spec
 	if udpsvc.IsSS2022(p.ServerProto) {
 		spec.ServerKeys = keysFor(p.ServerProto, p.ServerEIH, p.Seed, 1)
@@ -312,7 +313,7 @@ func runPlan(p *plan, workDir string) (out outcome) {
 	nExtra := 0
 	for _, ph := range p.Phases {
 		switch ph.Kind {
-		case phBlockInit, phReject, phFailInit:
+		case phBlockInit, phReject, phFailInit, phPackFail:
 			nExtra += ph.N
 		}
 	}
@@ -465,6 +466,108 @@ func runPlan(p *plan, workDir string) (out outcome) {
 			} else {
 				x.label("keepalive-gaps-too-long")
 			}
+		case phSteady:
+			// continuous client traffic with gaps far below the NAT timeout for longer than the NAT timeout:
+			// the session must stay (the destination sees one source address for the whole flow)
+			x.stopStreams()
+			x.settled = false
+			x.pacedAll("paced-no-reply", "steady-flow start")
+			x.established = true
+			interval := T / 30
+			dur := T * 5 / 2
+			type span struct{ first, last uint32 }
+			spans := make([]span, len(x.main))
+			var maxGapNs atomic.Int64
+			var swg sync.WaitGroup
+			for i, c := range x.main {
+				d := x.mainDest[i]
+				swg.Go(func() {
+					end := time.Now().Add(dur)
+					last := time.Now()
+					for time.Now().Before(end) {
+						seq := c.NextSeq()
+						if spans[i].first == 0 {
+							spans[i].first = seq
+						}
+						spans[i].last = seq
+						c.Send(seq, d, 16)
+						now := time.Now()
+						if g := now.Sub(last).Nanoseconds(); g > maxGapNs.Load() {
+							maxGapNs.Store(g)
+						}
+						last = now
+						time.Sleep(interval)
+					}
+				})
+			}
+			swg.Wait()
+			time.Sleep(40 * time.Millisecond)
+			maxGap := time.Duration(maxGapNs.Load())
+			if maxGap >= T/6 {
+				x.label("steady-gaps-too-long")
+				break
+			}
+			ports := make([]map[uint16]int, len(x.main))
+			for i := range ports {
+				ports[i] = map[uint16]int{}
+			}
+			for _, a := range x.w.Arrivals() {
+				if a.Err != nil || int(a.Tag.Session) >= len(x.main) {
+					continue
+				}
+				if sp := spans[a.Tag.Session]; a.Tag.Seq >= sp.first && a.Tag.Seq <= sp.last {
+					ports[a.Tag.Session][a.From.Port()]++
+				}
+			}
+			for i, m := range ports {
+				if len(m) > 1 {
+					x.miss("steady-flow-session-restarted", fmt.Sprintf("session %d sent a datagram every %v (largest gap %v, natTimeout %v) for %v, yet the destination saw %d different relay sockets: %v",
+						i, interval, maxGap.Round(time.Millisecond), T, dur, len(m), m))
+				}
+			}
+			x.label("steady-flow-held")
+		case phPackFail:
+			// first let everything that exists be evicted, so that the sessions created below are the only ones
+			x.stopStreams()
+			x.stopFloods()
+			if !udpsvc.WaitFor(T+evictSlack, func() bool { return x.sockets() <= x.sIdle }) {
+				x.miss("idle-session-not-evicted", fmt.Sprintf("before the pack-failure phase: %d sockets, idle level %d (natTimeout %v)", x.sockets(), x.sIdle, T))
+				break
+			}
+			x.established = false
+			variant := ph.Variant
+			if variant == "unresolvable" && (proxy || tunnel) {
+				variant = "toobig" // names are only resolved by a direct client, and a tunnel has a fixed target
+			}
+			for k := 0; k < ph.N; k++ {
+				c := x.nextExtra()
+				for j := 0; j < 3; j++ {
+					if variant == "unresolvable" {
+						c.Send(c.NextSeq(), x.dNx, 16)
+					} else {
+						d := x.dIP[k%2]
+						if tunnel {
+							d = x.dIP[0]
+						}
+						c.Send(c.NextSeq(), d, 1300) // 1324-byte payload: fits the server side, not the 1280-MTU outbound path
+					}
+					time.Sleep(2 * time.Millisecond)
+				}
+			}
+			created := udpsvc.WaitFor(300*time.Millisecond, func() bool { return x.sockets() > x.sIdle })
+			if !created {
+				x.label("pack-fail-session-not-observed")
+				break
+			}
+			if !udpsvc.WaitFor(T+evictSlack, func() bool { return x.sockets() <= x.sIdle }) {
+				x.miss("unforwardable-session-not-evicted", fmt.Sprintf("%d sessions whose datagrams all fail to pack (%s) were created; %v after their last datagram (natTimeout %v) the process still has %d sockets, idle level %d; relay goroutines:\n%s",
+					ph.N, variant, T+evictSlack, T, x.sockets(), x.sIdle, udpsvc.Summaries(udpsvc.RepoGoroutines())))
+				break
+			}
+			if !udpsvc.WaitFor(3*time.Second, func() bool { return len(udpsvc.RepoGoroutines()) <= x.gIdle }) {
+				fail("goroutines-after-eviction", "pack-failure sessions were evicted (sockets back to %d) but relay goroutines remain:\n%s", x.sIdle, udpsvc.Summaries(udpsvc.RepoGoroutines()))
+			}
+			x.label("pack-fail-session-evicted:" + variant)
 		case phExpiry:
 			// Each session sends one paced datagram; the relay extended that session's idle deadline when
 			// it forwarded it, i.e. at some instant between the harness's send (t0) and the echo (t1). One
